@@ -1,3 +1,223 @@
-import GambitV.Model.Fasta
+import GambitV.Lemmas.Content
+import GambitV.Props.C01
+import Batteries.Data.List.Basic
+
+/-!
+# C06 — a genome's signature depends only on its content
+
+* the set of k-mers (`SpecMem`, and the computed `signature`) is unchanged when any contig is replaced
+  by its reverse complement, when contigs are reordered / duplicated, and when letter case changes;
+* no k-mer is formed across a contig boundary: the signature is the union of the per-contig signatures;
+* the FASTA text is parsed to the same contigs whatever the line width, the line ending (LF / CRLF)
+  and whether there is a final newline (`parse_render`);
+* compression is recognised from the first two bytes of the content (`guess_iff`).
+
+Helper lemmas: `Lemmas/Content.lean`.  Only `List.Forall₂` is taken from
+`Batteries.Data.List.Basic`; everything else is core Lean.
+-/
 namespace GambitV.C06
+open GambitV
+
+/-! ### 1–4. Membership -/
+
+/-- 1. Any contig may be replaced by its reverse complement. -/
+theorem specMem_revcomp_any (k : Nat) (pre : List UInt8) (seqs seqs' : List (List UInt8))
+    (h : List.Forall₂ (fun a b => b = a ∨ b = revcomp a) seqs seqs') (x : Nat) :
+    SpecMem k pre seqs' x ↔ SpecMem k pre seqs x := by
+  induction h with
+  | nil => exact Iff.rfl
+  | cons hab _ ih =>
+    rw [specMem_cons, specMem_cons, ih]
+    rcases hab with rfl | rfl
+    · exact Iff.rfl
+    · rw [pairMem_revcomp]
+
+/-- 2. Only the set of contigs matters. -/
+theorem specMem_congr (k : Nat) (pre : List UInt8) (seqs seqs' : List (List UInt8))
+    (h : ∀ s, s ∈ seqs ↔ s ∈ seqs') (x : Nat) :
+    SpecMem k pre seqs x ↔ SpecMem k pre seqs' x := by
+  unfold SpecMem
+  simp only [h]
+
+/-- 2'. Contig order is irrelevant. -/
+theorem specMem_perm (k : Nat) (pre : List UInt8) (seqs seqs' : List (List UInt8))
+    (h : seqs.Perm seqs') (x : Nat) : SpecMem k pre seqs x ↔ SpecMem k pre seqs' x :=
+  specMem_congr k pre seqs seqs' (fun _ => h.mem_iff) x
+
+/-- 3. Letter case is irrelevant. -/
+theorem specMem_case (k : Nat) (pre : List UInt8) (seqs seqs' : List (List UInt8))
+    (h : List.Forall₂ (fun a b => upper a = upper b) seqs seqs') (x : Nat) :
+    SpecMem k pre seqs x ↔ SpecMem k pre seqs' x := by
+  induction h with
+  | nil => exact Iff.rfl
+  | cons hab _ ih => rw [specMem_cons, specMem_cons, ih, pairMem_case k pre _ _ x hab]
+
+/-- 4. No k-mer is formed across a contig boundary: membership is membership for some single contig. -/
+theorem specMem_union (k : Nat) (pre : List UInt8) (seqs : List (List UInt8)) (x : Nat) :
+    SpecMem k pre seqs x ↔ ∃ s ∈ seqs, SpecMem k pre [s] x := by
+  simp only [specMem_singleton]
+  exact Iff.rfl
+
+/-- 4'. Concatenating two genomes' contig lists gives the union. -/
+theorem specMem_append (k : Nat) (pre : List UInt8) (seqs seqs' : List (List UInt8)) (x : Nat) :
+    SpecMem k pre (seqs ++ seqs') x ↔ SpecMem k pre seqs x ∨ SpecMem k pre seqs' x := by
+  induction seqs with
+  | nil => simp [specMem_nil]
+  | cons s seqs ih => rw [List.cons_append, specMem_cons, specMem_cons, ih, or_assoc]
+
+/-! ### 5. The computed signature -/
+
+/-- Signatures with the same specified members are equal as lists. -/
+theorem signature_ext {k : Nat} {pre : List UInt8} (wf : C01.WF k pre) (seqs seqs' : List (List UInt8))
+    (h : ∀ x, SpecMem k pre seqs x ↔ SpecMem k pre seqs' x) :
+    signature k pre seqs = signature k pre seqs' :=
+  sorted_ext _ _ (C01.signature_sorted k pre seqs) (C01.signature_sorted k pre seqs')
+    (fun x => by rw [C01.mem_signature_iff wf, C01.mem_signature_iff wf, h])
+
+theorem signature_revcomp_any {k : Nat} {pre : List UInt8} (wf : C01.WF k pre)
+    (seqs seqs' : List (List UInt8))
+    (h : List.Forall₂ (fun a b => b = a ∨ b = revcomp a) seqs seqs') :
+    signature k pre seqs' = signature k pre seqs :=
+  signature_ext wf _ _ (specMem_revcomp_any k pre seqs seqs' h)
+
+theorem signature_congr {k : Nat} {pre : List UInt8} (wf : C01.WF k pre)
+    (seqs seqs' : List (List UInt8)) (h : ∀ s, s ∈ seqs ↔ s ∈ seqs') :
+    signature k pre seqs = signature k pre seqs' :=
+  signature_ext wf _ _ (specMem_congr k pre seqs seqs' h)
+
+theorem signature_perm {k : Nat} {pre : List UInt8} (wf : C01.WF k pre)
+    (seqs seqs' : List (List UInt8)) (h : seqs.Perm seqs') :
+    signature k pre seqs = signature k pre seqs' :=
+  signature_ext wf _ _ (specMem_perm k pre seqs seqs' h)
+
+theorem signature_case {k : Nat} {pre : List UInt8} (wf : C01.WF k pre)
+    (seqs seqs' : List (List UInt8))
+    (h : List.Forall₂ (fun a b => upper a = upper b) seqs seqs') :
+    signature k pre seqs = signature k pre seqs' :=
+  signature_ext wf _ _ (specMem_case k pre seqs seqs' h)
+
+/-- The signature of a genome is the (sorted, duplicate-free) union of the signatures of its contigs
+taken one at a time. -/
+theorem signature_union {k : Nat} {pre : List UInt8} (wf : C01.WF k pre) (seqs : List (List UInt8)) :
+    signature k pre seqs = setAccumulate (seqs.flatMap (fun s => signature k pre [s])) := by
+  apply sorted_ext _ _ (C01.signature_sorted k pre seqs) (setAccumulate_sorted _)
+  intro x
+  rw [C01.mem_signature_iff wf, mem_setAccumulate, specMem_union]
+  simp only [List.mem_flatMap, C01.mem_signature_iff wf]
+
+/-- Two genomes: the signature of the concatenated contig list is the union. -/
+theorem signature_append {k : Nat} {pre : List UInt8} (wf : C01.WF k pre)
+    (seqs seqs' : List (List UInt8)) :
+    signature k pre (seqs ++ seqs') = setAccumulate (signature k pre seqs ++ signature k pre seqs') := by
+  apply sorted_ext _ _ (C01.signature_sorted k pre _) (setAccumulate_sorted _)
+  intro x
+  rw [C01.mem_signature_iff wf, mem_setAccumulate, specMem_append, List.mem_append,
+    C01.mem_signature_iff wf, C01.mem_signature_iff wf]
+
+/-! ### 6. Writer / reader -/
+
+/-- 6. Whatever the wrapping width (including 1, and 0 = no wrapping), the line ending (LF or CRLF)
+and the presence of a final newline, the rendered records parse back to the sequences.  No edge case
+is excluded: empty `records`, records with an empty sequence (also last, without final newline) and
+empty names are all covered. -/
+theorem parse_render (width : Nat) (eol : List UInt8) (heol : eol = [10] ∨ eol = [13, 10])
+    (finalNl : Bool) (records : List (List UInt8 × List UInt8))
+    (hname : ∀ r ∈ records, ∀ c ∈ r.1, c ≠ 10 ∧ c ≠ 13)
+    (hseq : ∀ r ∈ records, ∀ c ∈ r.2, c ≠ 10 ∧ c ≠ 13 ∧ c ≠ 32 ∧ c ≠ 62) :
+    parseFasta (renderFasta width eol finalNl records) = records.map (·.2) := by
+  cases hrec : records with
+  | nil =>
+    rcases heol with rfl | rfl <;> cases finalNl <;> rfl
+  | cons r0 rs =>
+    rw [← hrec]
+    have hne : recordLines width records ≠ [] := by
+      rw [hrec, recordLines_cons]; simp
+    have h13 : ∀ l ∈ recordLines width records, ∀ c ∈ l, c ≠ 13 :=
+      recordLines_clean width records (· ≠ 13) (by decide) (fun r hr c hc => (hname r hr c hc).2)
+        (fun r hr c hc => (hseq r hr c hc).2.1)
+    have h10 : ∀ l ∈ recordLines width records, ∀ c ∈ l, c ≠ 10 :=
+      recordLines_clean width records (· ≠ 10) (by decide) (fun r hr c hc => (hname r hr c hc).1)
+        (fun r hr c hc => (hseq r hr c hc).1)
+    have htail : universalNewlines (if finalNl then eol else []) = if finalNl then [10] else [] := by
+      cases finalNl
+      · rfl
+      · rcases heol with rfl | rfl <;> rfl
+    unfold parseFasta
+    rw [renderFasta_eq, universalNewlines_join eol heol _ h13, htail,
+      splitLines_join _ h10 (recordLines_nonempty width records) hne, fastaRecords_eq,
+      fasta_recordLines width records (fun r hr c hc => (hseq r hr c hc).2)]
+    rfl
+
+/-- The parsed contigs do not depend on width, line ending or final newline. -/
+theorem parse_render_independent (width width' : Nat) (eol eol' : List UInt8)
+    (heol : eol = [10] ∨ eol = [13, 10]) (heol' : eol' = [10] ∨ eol' = [13, 10])
+    (finalNl finalNl' : Bool) (records : List (List UInt8 × List UInt8))
+    (hname : ∀ r ∈ records, ∀ c ∈ r.1, c ≠ 10 ∧ c ≠ 13)
+    (hseq : ∀ r ∈ records, ∀ c ∈ r.2, c ≠ 10 ∧ c ≠ 13 ∧ c ≠ 32 ∧ c ≠ 62) :
+    parseFasta (renderFasta width eol finalNl records) =
+      parseFasta (renderFasta width' eol' finalNl' records) := by
+  rw [parse_render width eol heol finalNl records hname hseq,
+    parse_render width' eol' heol' finalNl' records hname hseq]
+
+/-- … and neither does the signature of the file's content. -/
+theorem signature_render_independent (k : Nat) (pre : List UInt8) (width width' : Nat)
+    (eol eol' : List UInt8) (heol : eol = [10] ∨ eol = [13, 10]) (heol' : eol' = [10] ∨ eol' = [13, 10])
+    (finalNl finalNl' : Bool) (records : List (List UInt8 × List UInt8))
+    (hname : ∀ r ∈ records, ∀ c ∈ r.1, c ≠ 10 ∧ c ≠ 13)
+    (hseq : ∀ r ∈ records, ∀ c ∈ r.2, c ≠ 10 ∧ c ≠ 13 ∧ c ≠ 32 ∧ c ≠ 62) :
+    signature k pre (parseFasta (renderFasta width eol finalNl records)) =
+      signature k pre (parseFasta (renderFasta width' eol' finalNl' records)) := by
+  rw [parse_render_independent width width' eol eol' heol heol' finalNl finalNl' records hname hseq]
+
+/-! ### 7. Compression guess -/
+
+/-- Compression is recognised from the content: gzip iff the first two bytes are `1f 8b`. -/
+theorem guess_iff (content : List UInt8) :
+    guessGzip content = true ↔ ∃ rest, content = 0x1f :: 0x8b :: rest := by
+  unfold guessGzip
+  split
+  · rename_i a b rest
+    simp only [Bool.and_eq_true, beq_iff_eq, List.cons.injEq]
+    constructor
+    · rintro ⟨rfl, rfl⟩; exact ⟨rest, rfl, rfl, rfl⟩
+    · rintro ⟨_, rfl, rfl, _⟩; exact ⟨rfl, rfl⟩
+  · rename_i hno
+    constructor
+    · intro h; cases h
+    · rintro ⟨rest, rfl⟩; exact absurd rfl (hno _ _ _)
+
+/-! ### 8. Non-vacuity -/
+
+-- ">a\r\nACG\r\nT\r\n>b\r\nGG" : 2 contigs, width 3, CRLF, no final newline
+example : renderFasta 3 [13, 10] false [([97], [65, 67, 71, 84]), ([98], [71, 71])] =
+    [62, 97, 13, 10, 65, 67, 71, 13, 10, 84, 13, 10, 62, 98, 13, 10, 71, 71] := by decide
+
+example : parseFasta (renderFasta 3 [13, 10] false [([97], [65, 67, 71, 84]), ([98], [71, 71])]) =
+    [[65, 67, 71, 84], [71, 71]] := by decide
+
+-- width 1, LF, final newline; no wrapping, CRLF, final newline; an empty sequence last, no final newline
+example : parseFasta (renderFasta 1 [10] true [([97], [65, 67, 71, 84]), ([98], [71, 71])]) =
+    [[65, 67, 71, 84], [71, 71]] := by decide
+example : parseFasta (renderFasta 0 [13, 10] true [([97], [65, 67, 71, 84]), ([98], [71, 71])]) =
+    [[65, 67, 71, 84], [71, 71]] := by decide
+example : parseFasta (renderFasta 2 [10] false [([97], [65, 67, 71]), ([], [])]) = [[65, 67, 71], []] := by
+  decide
+
+-- prefix AT, k = 2.  Contigs "CA" and "TGG": no k-mer, although the concatenation "CATGG" contains
+-- AT|GG (→ 10): the k-mer exists only across the contig boundary.
+example : signature 2 [65, 84] [[67, 65], [84, 71, 71]] = [] := by decide
+example : signature 2 [65, 84] [[67, 65, 84, 71, 71]] = [10] := by decide
+example : signature 2 [65, 84] [[67, 65, 84, 71, 71]] ≠ [] := by decide
+example : C01.WF 2 [65, 84] := ⟨by decide, by decide, by decide, by decide⟩
+
+-- reverse-complementing one contig, swapping contigs, changing case: same signature
+-- contigs ATCCG / CATGG; revcomp CATGG = CCATG
+example : signature 2 [65, 84] [[65, 84, 67, 67, 71], [67, 65, 84, 71, 71]] = [5, 10] := by decide
+example : signature 2 [65, 84] [[65, 84, 67, 67, 71], [67, 67, 65, 84, 71]] = [5, 10] := by decide
+example : signature 2 [65, 84] [[99, 97, 116, 103, 103], [65, 84, 67, 67, 71]] = [5, 10] := by decide
+example : revcomp [67, 65, 84, 71, 71] = [67, 67, 65, 84, 71] := by decide
+
+example : guessGzip [0x1f, 0x8b, 8, 0] = true ∧ guessGzip [62, 97, 10] = false ∧ guessGzip [0x1f] = false := by
+  decide
+
 end GambitV.C06
